@@ -660,63 +660,205 @@ impl<C: Col + Premultiply<Scalar = <C as Col>::P>> Wrap<C> for WPre {
     fn de_hold<'de, D: Deserializer<'de>>(d: D) -> Option<Result<Self::V, D::Error>> { Some(HoldOptP::<C>::deserialize(d).map(|h| h.c)) }
 }
 
-fn main() {
-    probe();
+// ------------------------------------------------------------------------------------------------ text from trees, JSON observations
+
+fn num_json(t: &Value) -> String {
+    match nname(t) {
+        "f32" => serde_json::to_string(&f32::from_hex(nnum(t))).unwrap(),
+        "f64" => serde_json::to_string(&f64::from_hex(nnum(t))).unwrap(),
+        _ => u128::from_str_radix(nnum(t), 16).unwrap().to_string(),
+    }
+}
+/// JSON text of a tree as serde_json would print it (keys in the tree's order)
+fn tree_json(t: &Value) -> String {
+    match nk(t) {
+        "num" => num_json(t),
+        "struct" | "map" => {
+            let ks = nkeys(t);
+            let parts: Vec<String> = nitems(t).iter().enumerate().map(|(i, x)| format!("{}:{}", serde_json::to_string(ks[i]).unwrap(), tree_json(x))).collect();
+            format!("{{{}}}", parts.join(","))
+        }
+        "seq" | "tuple" | "tuple_struct" => format!("[{}]", nitems(t).iter().map(tree_json).collect::<Vec<_>>().join(",")),
+        "newtype" => tree_json(&nitems(t)[0]),
+        _ => "null".to_string(),
+    }
+}
+fn num_ron(t: &Value) -> String {
+    match nname(t) {
+        "f32" => ron::to_string(&f32::from_hex(nnum(t))).unwrap(),
+        "f64" => ron::to_string(&f64::from_hex(nnum(t))).unwrap(),
+        _ => u128::from_str_radix(nnum(t), 16).unwrap().to_string(),
+    }
+}
+/// RON text of a tree; None where RON has no such form for a struct (positional, map, bare hue)
+fn tree_ron(t: &Value, top: bool) -> Option<String> {
+    match nk(t) {
+        "num" => Some(num_ron(t)),
+        "struct" if top => {
+            let ks = nkeys(t);
+            let mut parts = vec![];
+            for (i, x) in nitems(t).iter().enumerate() {
+                parts.push(format!("{}:{}", ks[i], tree_ron(x, false)?));
+            }
+            Some(format!("({})", parts.join(",")))
+        }
+        "newtype" => Some(format!("({})", tree_ron(&nitems(t)[0], false)?)),
+        _ => None,
+    }
+}
+fn bare_hue_in(t: &Value, hue_field: Option<&str>) -> bool {
+    // a hue given as a bare number (RON wants the newtype parentheses)
+    match hue_field {
+        None => false,
+        Some(h) => nkeys(t).iter().zip(nitems(t)).any(|(k, x)| *k == h && nk(x) == "num"),
+    }
+}
+fn jdepth(v: &Value) -> i64 {
+    match v {
+        Value::Object(m) => 1 + m.values().map(jdepth).max().unwrap_or(0),
+        Value::Array(a) => 1 + a.iter().map(jdepth).max().unwrap_or(0),
+        _ => 0,
+    }
+}
+/// (top-level keys, nesting depth, 1 iff the value under "hue" is a JSON number)
+fn json_obs(text: &str) -> (Vec<String>, i64, i64) {
+    match serde_json::from_str::<Value>(text) {
+        Ok(v) => {
+            let keys = v.as_object().map(|m| m.keys().cloned().collect()).unwrap_or_default();
+            let hue = v.get("hue").map(|h| h.is_number() as i64).unwrap_or(0);
+            (keys, jdepth(&v), hue)
+        }
+        Err(_) => (vec!["<unparsable>".to_string()], -1, 0),
+    }
 }
 
-fn probe() {
-    type C = palette::rgb::Rgb<SrgbStd, f32>;
-    let v = <WAlpha as Wrap<C>>::build(C::make(&[0.25, 0.5, 0.75]), 0.625);
-    let t = v.serialize(TSer).unwrap();
-    println!("{}", t);
-    let back = <Alpha<C, f32>>::deserialize(TDe(&t)).map(|v| <WAlpha as Wrap<C>>::split(&v));
-    println!("rec: {:?}", back.map_err(|e| e.0));
-    let mut toks = vec![];
-    v.serialize(CSer(&mut toks)).unwrap();
-    println!("{:?}", toks);
-    let mut cd = CDe { toks: &toks, pos: 0 };
-    let back = <Alpha<C, f32>>::deserialize(&mut cd).map(|v| <WAlpha as Wrap<C>>::split(&v));
-    println!("compact: {:?} pos {}", back.map_err(|e| e.0), cd.pos);
-    type H = palette::Hsv<SrgbStd, f64>;
-    let h = <WAlpha as Wrap<H>>::build(H::make(&[120.0, 0.5, 0.75]), 0.625);
-    println!("{} hue={}", h.serialize(TSer).unwrap(), H::hue());
-    println!("{}", serde_json::to_string(&h).unwrap());
-    println!("{}", ron::to_string(&h).unwrap());
-    println!("{:?}", ron::ser::to_string_pretty(&h, ron::ser::PrettyConfig::new().struct_names(true)));
-    // serde(flatten)
-    #[derive(Serialize, Deserialize)]
-    struct Fl { #[serde(flatten)] c: Alpha<C, f32>, tag: u8 }
-    let f = Fl { c: v, tag: 7 };
-    let s = serde_json::to_string(&f).unwrap();
-    println!("{} -> {:?}", s, serde_json::from_str::<Fl>(&s).map(|f| (f.c.color.comps(), f.c.alpha, f.tag)).map_err(|e| e.to_string()));
-    // extremes through serde_json
-    for x in f64::extremes() {
-        let s = serde_json::to_string(&x).unwrap();
-        let r = serde_json::from_str::<f64>(&s);
-        println!("json f64 {} -> {:?}", s, r.map(|y| f64::ulp(x, y)).map_err(|e| e.to_string()));
+// ------------------------------------------------------------------------------------------------ events
+
+type Att<T> = Result<Result<T, String>, String>; // outer Err: panic
+fn att<T>(f: impl FnOnce() -> Result<T, String>) -> Att<T> { catch(f) }
+fn okstr<T>(r: &Att<T>) -> &'static str { match r { Ok(Ok(_)) => "ok", Ok(Err(_)) => "err", Err(_) => "panic" } }
+fn msg<T>(r: &Att<T>) -> String { match r { Ok(Ok(_)) => String::new(), Ok(Err(e)) => e.clone(), Err(e) => e.clone() } }
+fn err_node(m: &str) -> Value { node("error", m, "", vec![], vec![], 0) }
+
+struct Obs { keys: Vec<String>, depth: i64, huenum: i64, text: String }
+impl Obs { fn none() -> Obs { Obs { keys: vec![], depth: 0, huenum: 0, text: String::new() } } }
+
+fn rt_ev<C: Col, W: Wrap<C>>(rec: &mut Rec, fmt: &str, sw: &str, opt: bool, comps: &[C::P], alpha: Option<C::P>, res: Att<W::V>, obs: Obs) {
+    let (mut out, mut outa, mut ulp) = (vec![], String::new(), vec![]);
+    if let Ok(Ok(v)) = &res {
+        let (oc, oa) = W::split(v);
+        ulp = oc.iter().zip(comps).map(|(a, b)| C::P::ulp(*a, *b)).collect();
+        if let (Some(a), Some(b)) = (oa, alpha) { ulp.push(C::P::ulp(a, b)); }
+        out = oc.iter().map(|x| x.hex()).collect();
+        outa = oa.map(|x| x.hex()).unwrap_or_default();
     }
-    let mut r = Sm64::new(1);
-    let (mut mx, mut ne, mut er) = (0i64, 0u64, 0u64);
-    for _ in 0..3_000_000 {
-        let x = f64::random(&mut r);
-        let s = serde_json::to_string(&x).unwrap();
-        match serde_json::from_str::<f64>(&s) { Ok(y) => { let u = f64::ulp(x, y); if u > 0 { ne += 1; } if u > mx { mx = u; } } Err(_) => er += 1 }
+    rec.ev(json!({"ev": "rt", "fmt": fmt, "ty": C::TY, "prim": C::P::NAME, "sw": sw, "dw": W::NAME, "opt": opt as u8,
+        "in": comps.iter().map(|x| x.hex()).collect::<Vec<_>>(), "ina": alpha.map(|x| x.hex()).unwrap_or_default(),
+        "ok": okstr(&res), "out": out, "outa": outa, "ulp": ulp, "keys": obs.keys, "depth": obs.depth, "huenum": obs.huenum,
+        "text": obs.text, "msg": msg(&res)}));
+}
+
+fn de_json<T: DeserializeOwned>(text: &str) -> Result<T, String> { serde_json::from_str::<T>(text).map_err(|e| e.to_string()) }
+fn de_ron<T: DeserializeOwned>(text: &str) -> Result<T, String> { ron::from_str::<T>(text).map_err(|e| e.to_string()) }
+fn de_tree<T: DeserializeOwned>(t: &Value) -> Result<T, String> { T::deserialize(TDe(t)).map_err(|e| e.0) }
+fn ser_compact<T: Serialize>(v: &T) -> Result<Vec<Tok>, String> { let mut toks = vec![]; v.serialize(CSer(&mut toks)).map_err(|e| e.0)?; Ok(toks) }
+fn de_compact<T: DeserializeOwned>(toks: &[Tok]) -> Result<T, String> {
+    let mut cd = CDe { toks, pos: 0 };
+    let v = T::deserialize(&mut cd).map_err(|e| e.0)?;
+    if cd.pos != toks.len() { return Err(format!("compact: {} trailing tokens", toks.len() - cd.pos)); }
+    Ok(v)
+}
+fn hold_json<C: Col, W: Wrap<C>>(text: &str) -> Result<W::V, String> {
+    let mut d = serde_json::Deserializer::from_str(text);
+    let v = W::de_hold(&mut d).expect("helper").map_err(|e| e.to_string())?;
+    d.end().map_err(|e| e.to_string())?;
+    Ok(v)
+}
+fn hold_ron<C: Col, W: Wrap<C>>(text: &str) -> Result<W::V, String> {
+    let mut d = ron::Deserializer::from_str(text).map_err(|e| e.to_string())?;
+    let v = W::de_hold(&mut d).expect("helper").map_err(|e| e.to_string())?;
+    d.end().map_err(|e| e.to_string())?;
+    Ok(v)
+}
+fn hold_tree<C: Col, W: Wrap<C>>(t: &Value) -> Result<W::V, String> { W::de_hold(TDe(t)).expect("helper").map_err(|e| e.0) }
+fn hold_compact<C: Col, W: Wrap<C>>(toks: &[Tok]) -> Result<W::V, String> {
+    let mut cd = CDe { toks, pos: 0 };
+    let v = W::de_hold(&mut cd).expect("helper").map_err(|e| e.0)?;
+    if cd.pos != toks.len() { return Err(format!("compact: {} trailing tokens", toks.len() - cd.pos)); }
+    Ok(v)
+}
+fn hold_node(t: &Value) -> Value { node("struct", "Hold", "", vec![t.clone()], vec!["c".to_string()], 1) }
+fn named_ron<T: Serialize>(v: &T) -> Result<String, String> {
+    ron::ser::to_string_pretty(v, ron::ser::PrettyConfig::new().struct_names(true)).map_err(|e| e.to_string())
+}
+
+/// every observation of one value of one (colour type, wrapper)
+fn one<C: Col, W: Wrap<C>>(rec: &mut Rec, comps: &[C::P], alpha: C::P, light: bool) {
+    let wrapped = W::NAME != "plain";
+    let a = if wrapped { Some(alpha) } else { None };
+    let v = W::build(C::make(comps), alpha);
+    let plain = C::make(comps);
+    // (i) the data-model tree
+    let tree_r = att(|| v.serialize(TSer).map_err(|e| e.0));
+    let base_r = att(|| plain.serialize(TSer).map_err(|e| e.0));
+    let tree = match &tree_r { Ok(Ok(t)) => t.clone(), _ => err_node(&msg(&tree_r)) };
+    let base = match &base_r { Ok(Ok(t)) => t.clone(), _ => err_node(&msg(&base_r)) };
+    rec.ev(json!({"ev": "ser", "ty": C::TY, "prim": C::P::NAME, "wrap": W::NAME, "decl": C::decl(), "meta": C::meta(), "hue": C::hue(),
+        "in": comps.iter().map(|x| x.hex()).collect::<Vec<_>>(), "ina": a.map(|x| x.hex()).unwrap_or_default(),
+        "ok": okstr(&tree_r), "tree": tree, "base": base, "msg": msg(&tree_r)}));
+    rt_ev::<C, W>(rec, "rec", W::NAME, false, comps, a, att(|| de_tree::<W::V>(&tree)), Obs::none());
+    rt_ev::<C, W>(rec, "compact", W::NAME, false, comps, a, att(|| de_compact::<W::V>(&ser_compact(&v)?)), Obs::none());
+    // (ii) the real formats
+    let jt = att(|| serde_json::to_string(&v).map_err(|e| e.to_string()));
+    let jtext = match &jt { Ok(Ok(t)) => t.clone(), _ => format!("<{}>", msg(&jt)) };
+    let (keys, depth, huenum) = json_obs(&jtext);
+    rt_ev::<C, W>(rec, "json", W::NAME, false, comps, a, att(|| de_json::<W::V>(&jtext)), Obs { keys, depth, huenum, text: jtext.clone() });
+    let rtext = att(|| ron::to_string(&v).map_err(|e| e.to_string()));
+    rt_ev::<C, W>(rec, "ron", W::NAME, false, comps, a, att(|| de_ron::<W::V>(&rtext.clone().map_err(|e| e)??)), Obs::none());
+    if !light {
+        let seq_text = format!("[{}]", nitems(&tree).iter().map(tree_json).collect::<Vec<_>>().join(","));
+        rt_ev::<C, W>(rec, "json_seq", W::NAME, false, comps, a, att(|| de_json::<W::V>(&seq_text)), Obs::none());
+        rt_ev::<C, W>(rec, "ron_named", W::NAME, false, comps, a, att(|| de_ron::<W::V>(&named_ron(&v)?)), Obs::none());
     }
-    println!("json f64 random: max ulp {} differing {} errors {}", mx, ne, er);
-    let (mut mx, mut ne, mut er) = (0i64, 0u64, 0u64);
-    for _ in 0..3_000_000 {
-        let x = f32::random(&mut r);
-        let s = serde_json::to_string(&x).unwrap();
-        match serde_json::from_str::<f32>(&s) { Ok(y) => { let u = f32::ulp(x, y); if u > 0 { ne += 1; } if u > mx { mx = u; } } Err(_) => er += 1 }
-        let s = ron::to_string(&x).unwrap();
-        match ron::from_str::<f32>(&s) { Ok(y) => { let u = f32::ulp(x, y); if u > 0 { ne += 1; } if u > mx { mx = u; } } Err(_) => er += 1 }
+    if wrapped {
+        // data without an alpha field, read as a transparent type: error without the helper, full opacity with it
+        let ptext_j = serde_json::to_string(&plain).unwrap_or_default();
+        let ptext_r = ron::to_string(&plain).unwrap_or_default();
+        rt_ev::<C, W>(rec, "json", "plain", false, comps, None, att(|| de_json::<W::V>(&ptext_j)), Obs::none());
+        rt_ev::<C, W>(rec, "ron", "plain", false, comps, None, att(|| de_ron::<W::V>(&ptext_r)), Obs::none());
+        rt_ev::<C, W>(rec, "rec", "plain", false, comps, None, att(|| de_tree::<W::V>(&base)), Obs::none());
+        let hj = serde_json::to_string(&Hold { c: &plain }).unwrap_or_default();
+        let hr = ron::to_string(&Hold { c: &plain }).unwrap_or_default();
+        rt_ev::<C, W>(rec, "json_hold", "plain", true, comps, None, att(|| hold_json::<C, W>(&hj)), Obs::none());
+        rt_ev::<C, W>(rec, "ron_hold", "plain", true, comps, None, att(|| hold_ron::<C, W>(&hr)), Obs::none());
+        rt_ev::<C, W>(rec, "rec_hold", "plain", true, comps, None, att(|| hold_tree::<C, W>(&hold_node(&base))), Obs::none());
+        if !light {
+            let hj = serde_json::to_string(&Hold { c: &v }).unwrap_or_default();
+            let hr = ron::to_string(&Hold { c: &v }).unwrap_or_default();
+            rt_ev::<C, W>(rec, "json_hold", W::NAME, true, comps, a, att(|| hold_json::<C, W>(&hj)), Obs::none());
+            rt_ev::<C, W>(rec, "ron_hold", W::NAME, true, comps, a, att(|| hold_ron::<C, W>(&hr)), Obs::none());
+            rt_ev::<C, W>(rec, "rec_hold", W::NAME, true, comps, a, att(|| hold_tree::<C, W>(&hold_node(&tree))), Obs::none());
+        }
     }
-    println!("json+ron f32 random: max ulp {} differing {} errors {}", mx, ne, er);
-    let (mut mx, mut ne, mut er) = (0i64, 0u64, 0u64);
-    for _ in 0..1_000_000 {
-        let x = f64::random(&mut r);
-        let s = ron::to_string(&x).unwrap();
-        match ron::from_str::<f64>(&s) { Ok(y) => { let u = f64::ulp(x, y); if u > 0 { ne += 1; } if u > mx { mx = u; } } Err(_) => er += 1 }
+}
+
+fn tyseed(seed: u64, a: &str, b: &str, c: &str) -> u64 {
+    let mut h = seed ^ 0xcbf29ce484222325;
+    for x in a.bytes().chain(b.bytes()).chain(c.bytes()) { h = (h ^ x as u64).wrapping_mul(0x100000001b3); }
+    h
+}
+
+/// extremes in every position, then n random finite values; every 4th value gets the full set of forms
+fn sweep<C: Col, W: Wrap<C>>(rec: &mut Rec, seed: u64, n: usize) {
+    let nf = C::decl().len();
+    let ex = C::P::extremes();
+    let mut rng = Sm64::new(tyseed(seed, C::TY, C::P::NAME, W::NAME));
+    for k in 0..(ex.len() + n) {
+        let (comps, alpha): (Vec<C::P>, C::P) = if k < ex.len() {
+            ((0..nf).map(|i| ex[(k + i) % ex.len()]).collect(), ex[(k + nf) % ex.len()])
+        } else {
+            ((0..nf).map(|_| C::P::random(&mut rng)).collect(), C::P::random(&mut rng))
+        };
+        one::<C, W>(rec, &comps, alpha, k >= ex.len() && k % 4 != 0);
     }
-    println!("ron f64 random: max ulp {} differing {} errors {}", mx, ne, er);
 }
